@@ -2,7 +2,7 @@
 each plugin changes exactly its own entry of its own sub-map (headers / params / cookies) of the request
 arguments; every other key and every other entry passes through unchanged (whole-map postcondition)."""
 from pyvc.contracts import contract
-from pyvc.spec import dict_set, dict_merge, sub_dict, implies, uf, is_str_dict
+from pyvc.spec import dict_set, dict_merge, sub_dict, implies, uf, uf_dict, is_str_dict
 from pyopenapi_gen.core.auth.plugins import ApiKeyAuth, BearerAuth, HeadersAuth, OAuth2Auth
 from pyopenapi_gen.core.auth.base import CompositeAuth
 
@@ -35,7 +35,7 @@ def effect_of(p, args):
         return dict_set(args, "headers", dict_merge(sub_dict(args, "headers"), p.headers))
     if isinstance(p, ApiKeyAuth):
         return put(args, location_sub(p.location), p.name, p.key)
-    return uf("plugin_effect", p, args)
+    return uf_dict("plugin_effect", p, args)
 
 
 # ---- BearerAuth ------------------------------------------------------------------------------------
